@@ -334,8 +334,10 @@ Proof.
                                         SBlockSequenceEntry) true false)
       by (unfold block_sequence_entry; vpeek Hv; cbn; start_cases y0; reflexivity).
     rewrite Eq.
-    apply (Hx true false _ ((sp0, y0) :: tx') y r st SBlockSequenceEntry (s :: k) e tg kp Hw eq_refl Hm Hfy
-              ltac:(discriminate) Hb Hn).
+    match type of Eq with _ = parse_node ?q _ _ =>
+      apply (Hx true false q ((sp0, y0) :: tx') y r st SBlockSequenceEntry (s :: k) e tg kp Hw eq_refl Hm Hfy
+                ltac:(discriminate) Hb Hn)
+    end.
 Qed.
 
 (* what follows the entries of a block sequence *)
